@@ -1,5 +1,5 @@
 (* C14 -- Peers converge on one shared live connection; lookups never hang.
-   Property theorems only; proofs live in lib/ConvergeProofs.v and lib/ConvergeHist.v.
+   Property theorems only; proofs live in lib/ConvergeProofs.v, ConvergeHist.v, ConvergeAttempts.v, ConvergeSeq.v.
    `compare_offer` is the translation of Negotiation.compareOfferAndExisting (gen/ConvergeGen.v);
    `run ops` is the state of the two-Tub model lib/Converge.v after ANY finite sequence of operations
    (lookups, dialled hints, block deliveries in any order, cuts, close notifications, restarts, forced time-outs,
@@ -7,7 +7,8 @@
    changes of the handle-old option). *)
 From Coq Require Import ZArith List Bool.
 Import ListNotations.
-Require Import Verif.lib.PyLite Verif.gen.ConvergeGen Verif.lib.Converge Verif.lib.ConvergeProofs Verif.lib.ConvergeHist.
+Require Import Verif.lib.PyLite Verif.gen.ConvergeGen Verif.lib.Converge Verif.lib.ConvergeProofs Verif.lib.ConvergeHist Verif.lib.ConvergeAttempts Verif.lib.ConvergeSeq
+  Verif.lib.ConvergeLayers Verif.lib.ConvergeLayersProofs.
 
 (* "the system settles so that either each side's current connection to the other is the two ends of one and
    the same connection, or neither side has one": at quiescence (nothing in flight, every close seen by both ends:
@@ -29,16 +30,10 @@ Proof. exact broker_is_live_end. Qed.
 Print Assumptions C14_current_is_live_end.
 
 (* "an established healthy connection is not displaced by a redundant attempt from the same peer incarnation":
-   DECISION LEVEL (this theorem, about the translated function) and STEP LEVEL (C14_model_redundant_not_displacing below:
-   in ANY state of the two-Tub model, an in-flight offer with this content leaves the master's Tub untouched).
-   NOT proved as a statement about `run ops`: that whenever a connection is healthy at both ends, every offer of the
-   same incarnation still in flight has this content (it needs the invariant that the non-master dials only while it
-   has no current connection, so that the record in its hello is older than the connection it holds) -- and with a
-   record naming a past life of the master it is false (C14_not_displaced_refuted).  On the real Tubs this is what the
-   oracle families `redundant` and `one-sided-cut` check (exactly one of the parallel offers accepted).
-   PARTIAL.  Proved for offers that carry "none" or an older seqnum of this master incarnation.
-   The full statement (every offer of the same incarnation that does not know the existing connection is refused)
-   is FALSE for the code, see C14_not_displaced_refuted: what is missing is the case last_ir <> my_ir. *)
+   SYSTEM LEVEL: C14_established_not_displaced below (every reachable state; the one excluded case -- an offer naming a
+   past life of the master -- is exact: C14_past_life_offer_displaces, and reachable: C14_established_displaced_after_master_restart).
+   This theorem is the DECISION-LEVEL fact it rests on (translated function); as a statement about all offers of the
+   same incarnation it is PARTIAL: what is missing is the case last_ir <> my_ir, where the code accepts. *)
 Theorem C14_not_displaced_partial : forall inc last_ir last_seq e_seq my_ir ho age,
   (last_ir = IR_NONE \/ (last_ir = my_ir /\ (last_seq < e_seq)%Z)) ->
   compare_offer (Some inc) (Some (last_ir, last_seq)) (Some inc) e_seq my_ir ho age = Ok false.
@@ -77,6 +72,73 @@ Theorem C14_old_peer : forall o_inc o_last e_ir e_seq my_ir age,
   forall thr, compare_offer o_inc o_last e_ir e_seq my_ir (Some thr) age = Ok (negb (age <? thr)%Z).
 Proof. exact compare_old_peer. Qed.
 Print Assumptions C14_old_peer.
+
+(* SYSTEM LEVEL.  A Tub looks for a connection -- live TubConnector, or one of its own dials still negotiating at its
+   end -- only while it has no current connection (for every schedule). *)
+Theorem C14_attempt_only_without_broker : forall ops x,
+  let s := run ops in
+  (t_connector (tubof x s) <> None -> t_broker (tubof x s) = None) /\
+  (forall i, i < nconn s -> c_client (conns s i) = x -> negotiating (cend x (conns s i)) = true -> t_broker (tubof x s) = None).
+Proof. exact attempt_only_without_broker. Qed.
+Print Assumptions C14_attempt_only_without_broker.
+
+(* In every reachable state in which c is the master's current connection and the non-master's end of c is a live
+   Broker (so c is also the non-master's current connection: C14_current_is_live_end; cut or not), NO delivery to the
+   master replaces c -- whatever is in flight from redundant parallel hints, retries, older attempts -- provided the
+   offer being delivered does not name a PAST LIFE of the master.  That the offer is of the connected incarnation, that
+   it carries last-connection, and that a record of THIS master incarnation is older than c are all proved
+   (invariants of lib/ConvergeSeq.v), not assumed. *)
+Theorem C14_established_not_displaced : forall ops c c',
+  let s := run ops in
+  t_broker (tm s) = Some c -> c_s (conns s c) = EBrk ->
+  (forall i lir lseq rest, c_qsm (conns s c') = Hello i (Some (lir, lseq)) :: rest -> lir = IR_NONE \/ lir = t_inc (tm s)) ->
+  t_broker (tm (step s (Deliver c' TM))) = Some c.
+Proof. exact established_not_displaced. Qed.
+Print Assumptions C14_established_not_displaced.
+
+(* the guard as a property of the history: while the master is in its first incarnation (t_inc counts its restarts)
+   nothing is assumed about the offers *)
+Theorem C14_established_not_displaced_first_life : forall ops c c',
+  let s := run ops in
+  t_inc (tm s) = 1%Z -> t_broker (tm s) = Some c -> c_s (conns s c) = EBrk ->
+  t_broker (tm (step s (Deliver c' TM))) = Some c.
+Proof. exact established_not_displaced_first_life. Qed.
+Print Assumptions C14_established_not_displaced_first_life.
+
+(* the guard is exact: an offer naming a past life of the master DOES take the established connection's place ... *)
+Theorem C14_past_life_offer_displaces : forall ops c c' i lir lseq rest,
+  let s := run ops in
+  t_broker (tm s) = Some c -> Nat.ltb c' (nconn s) = true ->
+  c_qsm (conns s c') = Hello i (Some (lir, lseq)) :: rest -> c_m (conns s c') = ENeg ->
+  lir <> IR_NONE -> lir <> t_inc (tm s) ->
+  t_broker (tm (step s (Deliver c' TM))) = Some c' /\ c' <> c.
+Proof. exact past_life_offer_displaces. Qed.
+Print Assumptions C14_past_life_offer_displaces.
+
+(* ... and that is REACHABLE (the known finding as a run of the model, replayed on the real Tubs by the harness):
+   the master restarts, the non-master dials two hints; the first is established at both ends, uncut, same incarnation;
+   delivering the second offer replaces it *)
+Theorem C14_established_displaced_after_master_restart :
+  exists ops c c',
+    let s := run ops in
+    t_broker (tm s) = Some c /\ t_broker (ts s) = Some c /\ c_m (conns s c) = EBrk /\ c_s (conns s c) = EBrk /\
+    c_cut (conns s c) = false /\ t_bir (tm s) = Some (t_inc (ts s)) /\
+    t_broker (tm (step s (Deliver c' TM))) = Some c' /\ c' <> c.
+Proof. exact established_displaced_after_master_restart. Qed.
+Print Assumptions C14_established_displaced_after_master_restart.
+
+(* handle-old-duplicate-connections is never consulted between two modern Tubs: whenever the master evaluates an offer
+   while it has a current connection, the offer carries last-connection, and the translated decision function gives
+   the same answer for every value of the option and every age of the existing Broker *)
+Theorem C14_handle_old_unreachable : forall ops c inc last rest,
+  let s := run ops in
+  c < nconn s -> c_qsm (conns s c) = Hello inc last :: rest -> c_m (conns s c) = ENeg -> t_broker (tm s) <> None ->
+  last <> None /\
+  forall h h' a a',
+    compare_offer (Some inc) last (t_bir (tm s)) (t_bseq (tm s)) (t_inc (tm s)) h a =
+    compare_offer (Some inc) last (t_bir (tm s)) (t_bseq (tm s)) (t_inc (tm s)) h' a'.
+Proof. exact handle_old_unreachable. Qed.
+Print Assumptions C14_handle_old_unreachable.
 
 (* the two decision sentences lifted to the two-Tub model (composition of the translated decision function with the
    master's step): a redundant offer of the connected incarnation leaves the master's Tub and every other connection
@@ -187,3 +249,42 @@ Theorem C14_slave_records_decision : forall c s i q rest,
   t_slave (ts (step s (Deliver c TS))) = Some (i, q) /\ t_broker (ts (step s (Deliver c TS))) = Some c.
 Proof. exact slave_records_decision. Qed.
 Print Assumptions C14_slave_records_decision.
+
+(* THREE TUBS / several outbound negotiations (lib/ConvergeLayers.v, offers).  The two-Tub model builds the dialler's hello
+   from its record of THAT peer; this is what makes it so: for every interleaving of the set-up (initClient) and the
+   hellos (sendHello, one round trip later) of any number of outbound Negotiations of one Tub -- to its peer over several
+   hints and to other Tubs with other histories -- every hello carries the last-connection record of ITS OWN target.
+   `offer_dict_fresh` is translated from Negotiation.__init__ (self.negotiationOffer is built per instance). *)
+Theorem C14_hello_carries_own_record : forall rec evs n c,
+  In (n, c) (o_out (orun offer_dict_fresh rec evs)) ->
+  exists tgt, nth_error (o_tgts (orun offer_dict_fresh rec evs)) n = Some tgt /\ c = rec tgt.
+Proof. exact hello_carries_own_record. Qed.
+Print Assumptions C14_hello_carries_own_record.
+
+(* with one dict shared by the Negotiations it is false: initClient(A->B), initClient(A->C), sendHello(A->B) *)
+Theorem C14_shared_offer_refuted :
+  exists rec evs n c, In (n, c) (o_out (orun false rec evs)) /\
+    nth_error (o_tgts (orun false rec evs)) n = Some 0 /\ c <> rec 0.
+Proof. exact shared_offer_refuted. Qed.
+Print Assumptions C14_shared_offer_refuted.
+
+(* LOOKUPS QUEUED BEFORE Tub.startService (lib/ConvergeLayers.v, prestart).  For every history of getReference calls,
+   the start and answers: every Deferred handed out is still queued (Tub not started) or has exactly ONE lookup of its
+   own -- a lookup of the two-Tub model made at the time of the start, so C14_every_lookup_fires_within_timeout applies
+   to it, counted from the start -- and fires exactly when that lookup is answered; no Deferred fires twice.
+   `relay_binds_own_deferred` is translated from the loop in Tub.startService. *)
+Theorem C14_each_deferred_has_its_own_lookup : forall evs o,
+  let s := prun relay_binds_own_deferred evs in
+  o < p_no s ->
+  NoDup (p_fired s) /\
+  ((In o (p_queue s) /\ p_running s = false) \/
+   exists w, In (w, o) (p_inner s) /\ (forall w', In (w', o) (p_inner s) -> w' = w) /\ (In w (p_answered s) <-> In o (p_fired s))).
+Proof. exact each_deferred_has_its_own_lookup. Qed.
+Print Assumptions C14_each_deferred_has_its_own_lookup.
+
+(* the relay reading the loop variable late: two queued lookups, both answered, the first caller never hears *)
+Theorem C14_late_binding_refuted :
+  let s := prun false [PGet; PGet; PStart; PAnswer 0; PAnswer 1] in
+  p_answered s = [0; 1] /\ p_fired s = [1] /\ ~ In 0 (p_fired s).
+Proof. exact late_binding_refuted. Qed.
+Print Assumptions C14_late_binding_refuted.
